@@ -34,6 +34,8 @@ type c19Scenario struct {
 	Client string   `json:"client"` // streamable legacy
 	Cfg    c19Cfg   `json:"cfg"`
 	Ops    []string `json:"ops"`
+	Split  bool     `json:"split"` // the static headers are configured through two WithHTTPHeaders options
+	Query  bool     `json:"query"` // the configured URL carries a query string
 }
 
 type c19Rec struct {
@@ -68,6 +70,7 @@ type c19Srv struct {
 	mu        sync.Mutex
 	legacy    bool
 	wantPath  string
+	wantQuery string
 	recs      []c19Rec
 	curOp     string
 	handshake string
@@ -118,6 +121,10 @@ func (s *c19Srv) record(r *http.Request, body []byte) (kind string, method strin
 		want = "/message"
 	}
 	rec.Path = r.URL.Path == want
+	if s.wantQuery != "" && (!s.legacy || kind == "connect") {
+		// the configured URL includes its query string (the legacy message endpoint is the server's, not the configuration's)
+		rec.Path = rec.Path && r.URL.Query().Get("api_key") == s.wantQuery
+	}
 	rec.Via = r.Header.Get("X-Via-Handler") != ""
 	rec.Hdr = r.Header.Get("X-Static-A") == "a1" && strings.Join(r.Header.Values("X-Static-B"), ",") == "b1,b2"
 	if s.legacy {
@@ -234,7 +241,11 @@ func c19Run(sc c19Scenario) (res c19Result) {
 	info := mcp.Implementation{Name: "v", Version: "0"}
 	opts := []mcp.ClientOption{mcp.WithClientLogger(silentLogger{})}
 	if sc.Cfg.Hdr {
-		opts = append(opts, mcp.WithHTTPHeaders(http.Header{"X-Static-A": {"a1"}, "X-Static-B": {"b1", "b2"}}))
+		if sc.Split {
+			opts = append(opts, mcp.WithHTTPHeaders(http.Header{"X-Static-A": {"a1"}}), mcp.WithHTTPHeaders(http.Header{"X-Static-B": {"b1", "b2"}}))
+		} else {
+			opts = append(opts, mcp.WithHTTPHeaders(http.Header{"X-Static-A": {"a1"}, "X-Static-B": {"b1", "b2"}}))
+		}
 	}
 	if sc.Cfg.Handler {
 		opts = append(opts, mcp.WithHTTPReqHandler(c19Handler{}))
@@ -258,9 +269,13 @@ func c19Run(sc c19Scenario) (res c19Result) {
 	}
 	var cl *mcp.Client
 	var err error
+	q := ""
+	if sc.Query {
+		q, srv.wantQuery = "?api_key=k-1", "k-1"
+	}
 	if sc.Client == "legacy" {
 		srv.wantPath = "/sse"
-		cl, err = mcp.NewSSEClient(ts.URL+"/sse", info, opts...)
+		cl, err = mcp.NewSSEClient(ts.URL+"/sse"+q, info, opts...)
 	} else {
 		srv.wantPath = "/mcp"
 		if sc.Cfg.Path {
@@ -268,7 +283,7 @@ func c19Run(sc c19Scenario) (res c19Result) {
 			opts = append(opts, mcp.WithClientPath("/custom/route"))
 		}
 		opts = append(opts, mcp.WithClientGetSSEEnabled(sc.Cfg.GetSSE))
-		cl, err = mcp.NewClient(ts.URL+"/mcp", info, opts...)
+		cl, err = mcp.NewClient(ts.URL+"/mcp"+q, info, opts...)
 	}
 	if err != nil {
 		res.Broken = "new client: " + err.Error()
